@@ -240,3 +240,16 @@ Theorem C02_source_rootless_test_is_the_models : forall size pl : nat, (0 < pl)%
   (size =? 0)%nat = gen_rootless_cond_TorrentAssembler (Z.of_nat size) (Z.of_nat pl).
 Proof. exact model_rootless_test_is_source. Qed.
 Print Assumptions C02_source_rootless_test_is_the_models.
+
+(* the root BINDS the leaves: two different lists of 2^h thirty-two byte leaves under one root give an explicit
+   SHA-256 collision (two different inputs with the same hash), for every h.  Whatever accepts a pieces root
+   (recheck, rebuild) is therefore wrong about the leaves only if H256 itself collides (Proofs/MerkleCollision.v) *)
+From TF Require Import Proofs.MerkleCollision.
+Theorem C02_root_binds_leaves : forall (H256 : bytes -> bytes), (forall x, length (H256 x) = 32%nat) ->
+  forall (h : nat) (l l' : list bytes),
+  length l = (2 ^ h)%nat -> length l' = (2 ^ h)%nat ->
+  Forall (fun x => length x = 32%nat) l -> Forall (fun x => length x = 32%nat) l' ->
+  tree_root H256 h l = tree_root H256 h l' ->
+  l = l' \/ (exists x y : bytes, x <> y /\ H256 x = H256 y).
+Proof. exact tree_root_binds. Qed.
+Print Assumptions C02_root_binds_leaves.
